@@ -179,3 +179,54 @@ Definition mro_closed (P : prog) : bool :=
 
 (* the class table has no duplicate keys shadowing each other in a confusing way:
    not needed for soundness (assoc takes the first), kept out. *)
+
+(* ------------------------------------------------------------------ *)
+(* A computable UNDER-approximation (used only for non-vacuity: it      *)
+(* exhibits outcomes the semantics really has)                          *)
+(* ------------------------------------------------------------------ *)
+(* (can end normally, classes it can raise) *)
+Definition dres := (bool * list cls)%type.
+
+Definition is_nil {A} (l : list A) : bool := match l with [] => true | _ => false end.
+
+Fixpoint def_tm (P : prog) (call : fname -> dres) (cur : option cls) (t : tm) : dres :=
+  match t with
+  | Skip => (true, [])
+  | Raise c => (false, [c])
+  | Reraise => match cur with Some c => (false, [c]) | None => (false, []) end
+  | Prim p => (true, prim_raises P p)
+  | Call f => call f
+  | Seq a b =>
+      let ra := def_tm P call cur a in
+      let rb := def_tm P call cur b in
+      (fst ra && fst rb, snd ra ++ (if fst ra then snd rb else []))
+  | Branch a b =>
+      let ra := def_tm P call cur a in
+      let rb := def_tm P call cur b in
+      (fst ra || fst rb, snd ra ++ snd rb)
+  | Loop a => (true, snd (def_tm P call cur a))
+  | Catch b d =>
+      let rb := def_tm P call cur b in
+      (fst rb || existsb (fun c => fst (def_tm P call (Some c) d)) (snd rb),
+       flat_map (fun c => snd (def_tm P call (Some c) d)) (snd rb))
+  | Match cs h rest =>
+      match cur with
+      | Some c => if matches P c cs then def_tm P call cur h else def_tm P call cur rest
+      | None => def_tm P call None rest
+      end
+  | Finally b f =>
+      let rb := def_tm P call cur b in
+      let rf := def_tm P call cur f in
+      (fst rb && fst rf,
+       (if fst rf then snd rb else []) ++ (if fst rb || negb (is_nil (snd rb)) then snd rf else []))
+  end.
+
+Fixpoint definite (P : prog) (f : fname) (fuel : nat) : dres :=
+  match fuel with
+  | O => (false, [])
+  | S n =>
+      match assoc f (funs P) with
+      | None => (false, [])
+      | Some body => def_tm P (fun g => definite P g n) None body
+      end
+  end.
